@@ -72,6 +72,35 @@ def delegated_table(prog, f, pt, op, lhs_p, rhs_p):
         if idx.count("l") != 1 or idx.count("r") != 1:
             continue
         li, ri = idx.index("l") + 1, idx.index("r") + 1
+        direct = g
+        # chase thin wrappers: a helper that does not itself switch on the
+        # operands but hands them on to another local function
+        for _ in range(4):
+            sw = ops.arg_rooted_switches(g)
+            if ((("arg", li), "*") in sw) or ((("arg", ri), "*") in sw):
+                break
+            nxt = None
+            for c2 in g.calls():
+                if c2.is_ptr:
+                    continue
+                h = prog.fns.get(c2.res)
+                if h is None or not h.full or h.is_closure or h.path == g.path:
+                    continue
+                pos = []
+                for a in c2.args:
+                    cp2 = g.canon_op(a)
+                    if ops.same_value(cp2, (("arg", li),)):
+                        pos.append("l")
+                    elif ops.same_value(cp2, (("arg", ri),)):
+                        pos.append("r")
+                    else:
+                        pos.append("?")
+                if pos.count("l") == 1 and pos.count("r") == 1:
+                    nxt = (h, pos.index("l") + 1, pos.index("r") + 1)
+                    break
+            if nxt is None:
+                break
+            g, li, ri = nxt
         gpaths = [((("arg", li), "*"), VALUE), ((("arg", ri), "*"), VALUE)]
         gt = ops.PairTable(prog, g, gpaths)
         acc = set()
@@ -83,8 +112,19 @@ def delegated_table(prog, f, pt, op, lhs_p, rhs_p):
                         ("std::option::Option", "Some") in bc
                 if gt.reaches((a, b), succ):
                     acc.add((a, b))
-        return g, acc, (li < ri)
+        return Deleg(g, acc, (li < ri), direct, li, ri)
     return None
+
+
+class Deleg(tuple):
+    """(table function, accepted pairs, operands in order) plus .direct (the
+    function the operator function calls) and the parameter positions."""
+    def __new__(cls, g, acc, in_order, direct, li, ri):
+        o = tuple.__new__(cls, (g, acc, in_order))
+        o.direct = direct
+        o.li = li
+        o.ri = ri
+        return o
 
 
 def rule_R16_1(ctx):
@@ -302,6 +342,15 @@ def rule_R16_3(ctx):
 
 def run(ctx):
     rs = [rule_R16_1(ctx), rule_R16_2(ctx), rule_R16_3(ctx)]
+    # nested positions of ==: an identity shortcut must not accept kinds the
+    # structural comparison rejects (two functions)
+    import c10
+    r6 = c10.rule_R10_6(ctx)
+    r6.rule = "R16.6"
+    for v in r6.violations:
+        v.rule = "R16.6"
+        v.key = v.key.replace("R10.6", "R16.6", 1)
+    rs.append(r6)
     try:
         import c16b
         rs.extend(c16b.run(ctx))
